@@ -246,3 +246,71 @@ pub proof fn lemma_single(r: SolverResult)
     if r == SolverResult::True { assert(any3(s, SolverResult::True)); }
     if r == SolverResult::False { assert(any3(s, SolverResult::False)); }
 }
+
+// ---- C17 for of(.., n >= 1): the number of true operands is invariant under a bijective reordering
+pub open spec fn t1(r: SolverResult) -> nat { if r == SolverResult::True { 1 } else { 0 } }
+
+pub proof fn lemma_count_remove(s: Seq<SolverResult>, j: int)
+    requires 0 <= j < s.len(),
+    ensures count_true(s) == count_true(s.remove(j)) + t1(s[j]),
+    decreases s.len(),
+{
+    if j == s.len() - 1 {
+        assert(s.remove(j) =~= s.drop_last());
+    } else {
+        let s2 = s.drop_last();
+        lemma_count_remove(s2, j);
+        assert(s.remove(j).drop_last() =~= s2.remove(j));
+        assert(s.remove(j).last() == s.last());
+        assert(s2[j] == s[j]);
+    }
+}
+
+pub open spec fn injective(f: Seq<int>) -> bool {
+    forall|a: int, b: int| 0 <= a < f.len() && 0 <= b < f.len() && a != b ==> f[a] != f[b]
+}
+
+pub proof fn lemma_count_true_reorder(s1: Seq<SolverResult>, s2: Seq<SolverResult>, f: Seq<int>)
+    requires reordering(s1, s2, f), injective(f),
+    ensures count_true(s2) == count_true(s1),   // P:C17
+    decreases s2.len(),
+{
+    if s2.len() > 0 {
+        let n = s2.len() as int;
+        let j = f[n - 1];
+        let s2p = s2.drop_last();
+        let s1p = s1.remove(j);
+        let fp = Seq::new((n - 1) as nat, |i: int| if f[i] < j { f[i] } else { f[i] - 1 });
+        assert(reordering(s1p, s2p, fp)) by {
+            assert forall|i: int| 0 <= i < fp.len() implies 0 <= #[trigger] fp[i] < s1p.len() && s2p[i] == s1p[fp[i]] by {
+                assert(f[i] != j);
+                assert(s2[i] == s1[f[i]]);
+            }
+            assert forall|k: int| 0 <= k < s1p.len() implies #[trigger] covers(fp, k) by {
+                let k0 = if k < j { k } else { k + 1 };
+                assert(covers(f, k0));
+                let i = choose|i: int| 0 <= i < f.len() && #[trigger] f[i] == k0;
+                assert(i != n - 1);
+                assert(fp[i] == k);
+            }
+        }
+        assert(injective(fp)) by {
+            assert forall|a: int, b: int| 0 <= a < fp.len() && 0 <= b < fp.len() && a != b implies fp[a] != fp[b] by {
+                assert(f[a] != f[b]); assert(f[a] != j); assert(f[b] != j);
+            }
+        }
+        lemma_count_true_reorder(s1p, s2p, fp);
+        lemma_count_remove(s1, j);
+        assert(s2.last() == s1[j]);
+    }
+}
+
+// of(.., n) for every n is invariant under a bijective reordering
+pub proof fn lemma_of_reorder(s1: Seq<SolverResult>, s2: Seq<SolverResult>, f: Seq<int>, n: u64)
+    requires reordering(s1, s2, f), injective(f),
+    ensures of3(s2, n) == of3(s1, n),   // P:C17
+{
+    lemma_count_true_reorder(s1, s2, f);
+    lemma_reorder_same_values(s1, s2, f, SolverResult::True);
+    lemma_reorder_same_values(s1, s2, f, SolverResult::False);
+}
